@@ -19,6 +19,7 @@ type replayFile struct {
 	Harness string            `json:"harness"`
 	Values  map[string]string `json:"values"`
 	Bounds  map[string]int    `json:"bounds"`
+	Tier    string            `json:"tier"`
 }
 
 type Result struct {
@@ -156,6 +157,9 @@ func Concrete(v int) int { return v }
 func Bound(name string, quick, thorough int) int {
 	if v, ok := rp.Bounds[name]; ok {
 		return v
+	}
+	if rp.Tier == "thorough" || (rp.Tier == "" && os.Getenv("VERIF_TIER") == "thorough") {
+		return thorough
 	}
 	return quick
 }
